@@ -1,7 +1,9 @@
 package an
 
 import (
+	"fmt"
 	"go/ast"
+	"os"
 	"go/token"
 	"go/types"
 	"strings"
@@ -50,6 +52,9 @@ func (w *World) obsExpandOK(u *Unit, o types.Object, def ast.Expr, use *ast.Iden
 		}
 	}
 	ok := du != nil && w.obsDefOK(du, def) && w.obsRegionClean(du, o, def)
+	if os.Getenv("ZR_DEBUG_OBS") != "" {
+		fmt.Fprintf(os.Stderr, "obs-expand %s.%s = %v (unit %v, def ok %v)\n", u.Name, o.Name(), ok, du != nil, du != nil && w.obsDefOK(du, def))
+	}
 	w.obsUse[o] = ok
 	return ok
 }
@@ -121,6 +126,20 @@ func (w *World) detObserver(f *types.Func, depth int) bool {
 		}
 		if f.Pkg().Path() == "fmt" {
 			return strings.HasPrefix(f.Name(), "Sprint") || f.Name() == "Errorf"
+		}
+		if f.Pkg().Path() == "time" {
+			// everything but the clock and the timers is a function of its operands
+			if sig := f.Type().(*types.Signature); sig.Recv() != nil {
+				if n, ok := sig.Recv().Type().(*types.Named); ok && (n.Obj().Name() == "Duration" || n.Obj().Name() == "Time" || n.Obj().Name() == "Month" || n.Obj().Name() == "Weekday") {
+					return true
+				}
+				return false
+			}
+			switch f.Name() {
+			case "Unix", "UnixMilli", "UnixMicro", "Date", "ParseDuration", "Parse":
+				return true
+			}
+			return false
 		}
 		sig := f.Type().(*types.Signature)
 		if sig.Recv() != nil {
@@ -297,6 +316,20 @@ func (w *World) obsRegionClean(u *Unit, o types.Object, def ast.Expr) bool {
 				muts = append(muts, s)
 			case w.observer(s.Callee, 0):
 			default:
+				// a callee whose stores (transitively) touch none of the fields the definition reads cannot change it
+				if reads != nil {
+					if wr, known := w.writtenFields(s.Callee, 0, map[*types.Func]bool{}); known {
+						disjoint := true
+						for f := range wr {
+							if reads[f] {
+								disjoint = false
+							}
+						}
+						if disjoint {
+							continue
+						}
+					}
+				}
 				hit := false
 				if sel, isSel := ast.Unparen(s.Call.Fun).(*ast.SelectorExpr); isSel && mentions(sel.X) {
 					hit = true
@@ -413,6 +446,9 @@ func (w *World) obsRegionClean(u *Unit, o types.Object, def ast.Expr) bool {
 				inB = bwd[m.Block]
 			}
 			if inB {
+				if os.Getenv("ZR_DEBUG_OBS") != "" {
+					fmt.Fprintf(os.Stderr, "  %s: %s between def and use at %s: %v\n", o.Name(), m.Kind, u.Pos(m.Pos), CalleeName(m))
+				}
 				return false
 			}
 		}
@@ -518,4 +554,107 @@ func (w *World) collectReads(info *types.Info, n ast.Node, out map[*types.Var]bo
 		return true
 	})
 	return ok
+}
+
+// writtenFields: the struct fields stored to by f and, transitively, by what it calls; known is false when that
+// cannot be bounded (a store through a plain pointer, a dynamic call, a callee without source outside the packages
+// known to be pure, too deep).
+func (w *World) writtenFields(f *types.Func, depth int, seen map[*types.Func]bool) (map[*types.Var]bool, bool) {
+	if m, ok := w.wrMemo[f]; ok {
+		return m.fields, m.known
+	}
+	if seen[f] {
+		return nil, true
+	}
+	seen[f] = true
+	out := map[*types.Var]bool{}
+	known := true
+	src := w.P.FuncOf(f)
+	switch {
+	case src != nil && src.Decl.Body != nil && w.observer(f, 0):
+		// computed: no store through its receiver or parameters, only observer callees
+	case src == nil || src.Decl.Body == nil:
+		sig := f.Type().(*types.Signature)
+		switch {
+		case f.Pkg() == nil:
+		case purePkgs[f.Pkg().Path()] || f.Pkg().Path() == "fmt" || f.Pkg().Path() == "time" || f.Pkg().Path() == "errors" || f.Pkg().Path() == "sync/atomic" && strings.HasPrefix(f.Name(), "Load"):
+		case sig.Recv() != nil && observerMethod(f.Name()):
+		case sig.Recv() != nil && w.inModule(f.Pkg()):
+			if iface, isIface := sig.Recv().Type().Underlying().(*types.Interface); isIface {
+				impls := w.implementations(iface, f.Name())
+				if len(impls) == 0 || depth > 4 {
+					known = false
+				}
+				for _, m := range impls {
+					wr, k := w.writtenFields(m, depth+1, seen)
+					if !k {
+						known = false
+					}
+					for x := range wr {
+						out[x] = true
+					}
+				}
+			} else {
+				known = false
+			}
+		default:
+			known = false
+		}
+	case depth > 5:
+		known = false
+	default:
+		u, err := w.Unit(src.Name)
+		if err != nil {
+			known = false
+			break
+		}
+		for _, uu := range append([]*Unit{u}, u.Lits()...) {
+			for _, s := range uu.Sites {
+				switch s.Kind {
+				case flow.SStore:
+					if s.Field != nil {
+						out[s.Field] = true
+					} else if s.Local == nil {
+						known = false // *p = v, a[i] = v through something that is not a field or a local
+					} else if s.Index {
+						// an element of a local slice/map: may alias a caller's storage
+						if _, isRole := uu.C.RoleOf(s.Local); isRole {
+							known = false
+						}
+					}
+				case flow.SCall:
+					switch {
+					case s.Builtin != "":
+						if s.Builtin == "copy" || s.Builtin == "delete" {
+							known = false
+						}
+					case s.Callee == nil:
+						if tv, isT := uu.Info().Types[s.Call.Fun]; !isT || !tv.IsType() {
+							known = false
+						}
+					default:
+						wr, k := w.writtenFields(s.Callee, depth+1, seen)
+						if !k {
+							known = false
+						}
+						for x := range wr {
+							out[x] = true
+						}
+					}
+				}
+			}
+		}
+	}
+	if w.wrMemo == nil {
+		w.wrMemo = map[*types.Func]wrSummary{}
+	}
+	if depth == 0 {
+		w.wrMemo[f] = wrSummary{out, known}
+	}
+	return out, known
+}
+
+type wrSummary struct {
+	fields map[*types.Var]bool
+	known  bool
 }
